@@ -84,10 +84,18 @@ def gen_history(rng, tier, multi):
         return files
     nsteps = rng.choice([2, 2, 3, 4])
     files = mk_files()
+    # some histories register through the directory / a glob, and a file may be EMPTY when it is
+    # registered and get its content later: what run() does depends on the files as they are
+    # when it runs
+    via = rng.choice([None, None, None, '', '*.log'])
+    if via is not None or rng.random() < 0.1:
+        for f in files:
+            if rng.random() < 0.35:
+                f['content'] = ''
     regs = None
     for i in range(nsteps):
         how = rng.choice(['repeat', 'repeat', 'rewrite', 'rewrite_same_size', 'new_searcher',
-                          'grow']) if i else 'first'
+                          'grow' if via is None else 'rewrite']) if i else 'first'
         if how == 'rewrite_same_size' and not use_ts:
             how = 'rewrite'
         new_regs = []
@@ -112,10 +120,15 @@ def gen_history(rng, tier, multi):
             regs = [[d, k] + ([rng.random() < 0.75] if use_ts else [])
                     for d in range(len(defs)) for k in range(len(files))
                     if rng.random() < 0.85] or [[0, 0]]
+            if via is not None:
+                regs = [[d, via] + ([rng.random() < 0.75] if use_ts else [])
+                        for d in range(len(defs)) if rng.random() < 0.9] or [[0, via]]
         else:
             regs = regs + new_regs
         steps.append({'how': how, 'files': files, 'regs': list(regs), 'new_regs': new_regs})
     hist = {'defs': defs, 'steps': steps}
+    if via is not None:
+        hist['_expanded'] = {via: list(range(nfiles))}
     if use_ts:
         hist['constraints'] = [K.gen_since(rng, all_times, kind)]
         hist['global'] = 0
@@ -201,12 +214,13 @@ def run(tier, seed, replay_case=None):
                               'defs': hist['defs'][:2]})
         rep.count('histories_multi' if 'max_parallel_tasks' in hist else 'histories_single')
         failed = False
-        for i, (step, obs, ref) in enumerate(zip(hist['steps'], it['obs'], it['ref'])):
-            mr = next(mruns)
+        rows = []
+        for step, obs, ref in zip(hist['steps'], it['obs'], it['ref']):
+            rows.append((step, obs, ref, next(mruns)))
             rep.count('runs')
             rep.count('step_' + step['how'])
-            if failed:
-                continue
+        # the property first, for EVERY run of the history: same as a fresh interpreter
+        for i, (step, obs, ref, mr) in enumerate(rows):
             if ref.get('err') == 'fresh-interpreter-failed':
                 raise core.Infra("fresh interpreter failed: " + ref.get('stderr', ''))
             if strip(obs) != strip(ref):
@@ -223,7 +237,11 @@ def run(tier, seed, replay_case=None):
                          f"fresh interpreter: {d}", impl=strip(obs) if 'err' in obs else
                          obs.get('stats'), spec=strip(ref) if 'err' in ref else ref.get('stats'))
                 failed = True
-                continue
+                break
+        # then the model, run by run
+        for i, (step, obs, ref, mr) in enumerate(rows):
+            if failed:
+                break
             if not mr['persistOk']:
                 raise core.Infra("Lean model: runTaskFrom differs from runTask on a case "
                                  "(contradicts C08_persist_independent)")
